@@ -7,12 +7,12 @@ from .common import absorb, blank, brief_scn, run_scn, termination
 ID = 'C14'
 LEVEL = 'exploration'
 TIERS = {'quick': 5000, 'thorough': 300000}
-RULE = ('2-3 baton-scheduled threads (or asyncio tasks) each opening 2-4 streams on one device (some OPENs refused by the device, some answered only after the read timeout of the host, so that opens fail while others are in flight and their streams stay live on the device), with opcode-level pre-emption inside AdbDevice._open '
+RULE = ('2-3 baton-scheduled threads (or asyncio tasks) each opening 2-4 streams on one device (some OPENs refused by the device, some answered only after the read timeout of the host, so that opens fail while others are in flight and their streams stay live on the device; late CLSEs for ids about to be handed out; one actor closing and re-connecting the shared device mid-run), with opcode-level pre-emption inside AdbDevice._open '
         'and line-level pre-emption elsewhere (dense and PCT policies), the id counter preset to values near 0 and 2^32 (..., 2^32-2, 2^32-1); plus '
         'sequential wrap-around sessions. Oracle on the device side: every OPEN arg0 in [1, 2^32-1] and never the id of a stream that is live at that '
         'moment. non-trivial = a context switch happened inside _open (threads) or the counter wrapped / two streams were live at once (tasks, sequential)')
 ASSUMPTIONS = ['a stream is live from its OPEN until either side has sent CLSE', 'results of the operations are not judged here (K1 may time them out); only OPEN ids']
-EXPECT_PROBES = {'all': ['preempt_in__open', 'preempt_opcode', 'c14_wrapped', 'c14_two_live', 'open_refused', 'late_open_okay']}
+EXPECT_PROBES = {'all': ['preempt_in__open', 'preempt_opcode', 'c14_wrapped', 'c14_two_live', 'open_refused', 'late_open_okay', 'noise_clse', 'c14_reconnect_mid_run']}
 OWN = ('id-zero', 'id-reused', 'id-range', 'hang', 'no-termination', 'deadlock')
 
 
@@ -56,6 +56,16 @@ def generate(seed, tier):
     else:
         cfg['ayield'] = g.pick([0.0, 0.5])
     start = g.pick([0, 0, 1, 0xFFFFFFFF, 0xFFFFFFFE, 0xFFFFFFFD, 0xFFFFFFFC, 0xFFFFFFFF - g.int(0, 6), 0x7FFFFFFF, 0xFFFFFFFF])
+    if g.chance(0.2):
+        # late CLSEs for ids this object has not handed out (yet): whatever the library remembers about them, the ids it hands out stay in [1, 2^32-1]
+        nxt = [(start + j) & 0xFFFFFFFF for j in range(1, 8)]
+        d['noise_clse_locals'] = [x for x in nxt if x != 0][:g.int(1, 6)] + [0xFFFFFFFF]
+        d['noise_every'] = g.pick([1, 2])
+    if mode != 'seq' and g.chance(0.2):
+        # one actor closes and re-connects the shared device in the middle: an OPEN already under way may go out on the new connection
+        a = g.int(0, nact - 1)
+        at = g.int(0, len(actors[a]))
+        actors[a][at:at] = [{'op': 'close'}, {'op': 'connect', 'rt': 5.0}]
     scn = {'api': 'async' if mode == 'tasks' else 'sync', 'transport': 'mem', 'device': d, 'config': cfg, 'pre': [{'op': 'connect', 'rt': 5.0}],
            'actors': actors, 'object': {'banner': 'simhost', 'local_id': start}}
     if mode == 'seq':
@@ -95,6 +105,8 @@ def evaluate(case, tapes=None):
                 two_live = True
     if two_live:
         pr['c14_two_live'] = 1
+    if dev.sessions >= 2:
+        pr['c14_reconnect_mid_run'] = 1
     in_open = run.sched.in_alloc_switch if run.sched is not None else 0
     out['violations'] = [p for p in probs if p[0] in OWN]
     out['nontrivial'] = in_open > 0 if case.get('mode') == 'threads' else (wrapped or two_live)
